@@ -63,7 +63,13 @@ func New() *Sched { return &Sched{procs: map[int64]*Proc{}} }
 
 // Go starts fn as a gated process.
 func (s *Sched) Go(name string, fn func() (interface{}, error)) *Proc {
-	p := &Proc{Name: name, parked: make(chan *Point), done: make(chan struct{})}
+	p := NewProc(name)
+	s.Start(p, fn)
+	return p
+}
+
+// Start runs fn as process p (created with NewProc, so that the caller can publish p before it runs).
+func (s *Sched) Start(p *Proc, fn func() (interface{}, error)) {
 	started := make(chan struct{})
 	go func() {
 		id := curGoid()
@@ -80,7 +86,6 @@ func (s *Sched) Go(name string, fn func() (interface{}, error)) *Proc {
 		p.Res, p.Err = fn()
 	}()
 	<-started
-	return p
 }
 
 // Adopt registers the calling goroutine as (part of) process p until the returned func is called.
@@ -102,7 +107,11 @@ func NewProc(name string) *Proc {
 }
 
 // At is called by the wrappers at each gated point.
-func (s *Sched) At(op, key, val string) Decision {
+func (s *Sched) At(op, key, val string) Decision { return s.AtFor(nil, op, key, val) }
+
+// AtFor is At with a fallback process for goroutines that are not registered (goroutines spawned by the
+// real code on behalf of a harness-started operation).
+func (s *Sched) AtFor(fallback func() *Proc, op, key, val string) Decision {
 	if s == nil {
 		return Proceed
 	}
@@ -111,6 +120,9 @@ func (s *Sched) At(op, key, val string) Decision {
 	p := s.procs[id]
 	free := s.Free
 	s.mu.Unlock()
+	if p == nil && fallback != nil {
+		p = fallback()
+	}
 	if p == nil {
 		if free != nil {
 			return free(op, key)
